@@ -18,6 +18,14 @@ type c11SchedParams struct {
 	Name  string
 	Conns [][][]string
 	Fine  bool // function-entry scheduling points inside the server package
+	Prop  string `json:"prop,omitempty"` // property reported under (default C11)
+}
+
+func (p c11SchedParams) prop() string {
+	if p.Prop != "" {
+		return p.Prop
+	}
+	return "C11"
 }
 
 func c11SchedScenarios() []c11SchedParams {
@@ -110,12 +118,12 @@ func c11SchedRun(job *Job, p c11SchedParams, prefix []int) (out schedOut) {
 		out.Trace = append([]vsched.ChoicePoint(nil), vsched.Trace...)
 		out.Diverged = vsched.Diverged
 		if len(vsched.Crashes) > 0 {
-			out.VSig = "C11/server-crash:" + p.Name
+			out.VSig = p.prop() + "/server-crash:" + p.Name
 			out.VDetail = vsched.Crashes[0].Value + "\n" + vsched.Crashes[0].Stack
 			return
 		}
 		if !done {
-			out.VSig = "C11/no-reply:" + p.Name
+			out.VSig = p.prop() + "/no-reply:" + p.Name
 			out.VDetail = "not every page was answered within 30 virtual seconds; threads: " + vsched.Dump()
 			out.Obs = "NO-REPLY"
 			return
@@ -124,7 +132,7 @@ func c11SchedRun(job *Job, p c11SchedParams, prefix []int) (out schedOut) {
 		for i := range clis {
 			for k, cmd := range p.Conns[i] {
 				if want := alone[fmt.Sprint(cmd)]; got[i][k] != want && out.VSig == "" {
-					out.VSig = "C11/concurrent-page-differs:" + p.Name
+					out.VSig = p.prop() + "/concurrent-query-differs:" + p.Name
 					out.VDetail = fmt.Sprintf("connection %d: %v answered %s while other clients were paging; the same command alone answers %s", i, cmd, vclip(got[i][k], 300), vclip(want, 300))
 				}
 			}
@@ -158,6 +166,56 @@ func checkC11Sched(job *Job, res *Result) {
 		b := bound
 		if p.Fine {
 			// ~250 points per execution: one preemption on every change, two in the thorough tier
+			b = bound - 1
+		}
+		st := exploreSched(job, res, sc, b)
+		res.Extra[sc.Name] = map[string]any{"execs": st.Execs, "outcomes": len(st.Outcomes), "max_choice_points": st.MaxPoints}
+		if res.EngineError != "" {
+			return
+		}
+	}
+}
+
+// ---- C13 schedules part: nearest-neighbour queries around different points at the same time
+
+func c13SchedScenarios() []c11SchedParams {
+	ws := func(ss ...string) [][]string {
+		var out [][]string
+		for _, s := range ss {
+			out = append(out, w(s))
+		}
+		return out
+	}
+	return []c11SchedParams{
+		{Name: "fine:nearby-two-centres", Fine: true, Prop: "C13", Conns: [][][]string{
+			ws("NEARBY k LIMIT 3 DISTANCE POINT 0 0", "NEARBY k DISTANCE POINT 4 4 300000"),
+			ws("NEARBY k LIMIT 3 DISTANCE POINT 4 4", "NEARBY k DISTANCE POINT 0 0 300000")}},
+		{Name: "nearby-three-centres", Prop: "C13", Conns: [][][]string{
+			ws("NEARBY k LIMIT 2 DISTANCE POINT 0 0"), ws("NEARBY k LIMIT 2 DISTANCE POINT 4 4"), ws("NEARBY k LIMIT 2 DISTANCE POINT 2 2", "NEARBY k LIMIT 2 DISTANCE POINT 1 3")}},
+	}
+}
+
+func init() { checks["c13sched"] = checkC13Sched }
+
+func checkC13Sched(job *Job, res *Result) {
+	res.Rule = "SCHED: 2-3 clients asking for the nearest neighbours of different points in one collection at the same time; every schedule within the preemption bound (one scenario with function-entry scheduling points); every reply must equal the reply the same command gets alone"
+	if job.Replay != nil {
+		replaySched(job, res, func(params []byte, sched []int) schedOut {
+			var p c11SchedParams
+			mustJSON(params, &p)
+			return c11SchedRun(job, p, sched)
+		})
+		return
+	}
+	bound := 2
+	if b, ok := job.Params["bound"].(float64); ok {
+		bound = int(b)
+	}
+	for _, p := range c13SchedScenarios() {
+		p := p
+		sc := schedScenario{Name: "c13." + p.Name, Params: p, Run: func(prefix []int) schedOut { return c11SchedRun(job, p, prefix) }}
+		b := bound
+		if p.Fine {
 			b = bound - 1
 		}
 		st := exploreSched(job, res, sc, b)
